@@ -46,7 +46,7 @@ def check(run, args):
     run.drift += sum(1 for x in recs if x["prop"] == "DRIFT")
     mine, seen = [], set()
     for x in recs:
-        if x["prop"] == run.prop and x["key"] not in seen:
+        if x["prop"] in (run.prop, "CRASH") and x["key"] not in seen:
             seen.add(x["key"])
             mine.append(x)
     wanted = {x["trace"] for x in mine[:20]}
